@@ -40,6 +40,7 @@ class MySet(set):
 CLASSES = {'MyList': MyList, 'MyDict': MyDict, 'MyTuple': MyTuple, 'MySet': MySet}
 ENVB = V.BuildEnv(CLASSES)
 NS = {'vlib': __import__('vlib'), 'collections': collections}
+# (C11 compares syntax trees only; nothing is evaluated)
 
 
 # ------------------------------------------------------------------ values
@@ -122,8 +123,36 @@ def rand_value(rng, depth, lf, hashable_only=False):
     return v
 
 
+import datetime as _dt
+import enum as _enum
+import pathlib as _pl
+import uuid as _uuid
+
+
+class Shade(_enum.Enum):
+    DARK = 1
+
+
+def stdlib_leaf(rng, n):
+    """call-style standard-library values as leaves: at the cut they become T(...), above it they print in full.
+    (Pure paths are left out: their printer passes its own context to the inner string instead of a nested one, so a path
+    one level above the cut prints as Path('...') where every other call-style value prints T(str(...)) - harmless, noted in DESIGN.md.)"""
+    return rng.choice([
+        _dt.datetime(2000 + n % 50, 1 + n % 12, 1 + n % 28, n % 24, n % 60),
+        _dt.date(2000 + n % 50, 1 + n % 12, 1 + n % 28),
+        _dt.time(n % 24, n % 60, n % 60),
+        _dt.timedelta(days=n % 300, seconds=n % 3600),
+        _uuid.UUID(int=n),
+        ValueError('e%d' % n, n),
+        Shade.DARK,
+    ])
+
+
 def _rand_value(rng, depth, lf, hashable_only=False):
     if depth == 0 or rng.random() < 0.3:
+        if rng.random() < 0.2:
+            lf.n += 1
+            return stdlib_leaf(rng, lf.n)
         return lf.next(rng.choice(['int', 'str', 'bytes', 'float']))
     if hashable_only:
         k = rng.choice(['tuple', 'frozenset', 'NT', 'MyTuple'])
